@@ -28,6 +28,9 @@ REGISTERED = {"objects": ["x-registered-object", "registered-plain-object"], "ob
               "extensions": ["x-registered-ext"]}
 
 
+REG_TOPLEVEL = "extension-definition--7c3b9e4f-5d6f-4a81-8cbd-2e3f4a5b6c7d"
+
+
 def _register():
     P = stix2.properties
     for mod, ver in ((stix2.v20, "2.0"), (stix2.v21, "2.1")):
@@ -38,6 +41,9 @@ def _register():
                 mod.CustomObservable(t, [("value", P.StringProperty(required=True))], ["value"])(type("RegObs", (object,), {}))
             else:
                 mod.CustomObservable(t, [("value", P.StringProperty(required=True))])(type("RegObs", (object,), {}))
+    # a registered toplevel-property-extension: its property t_rank becomes a top-level property of the carrier
+    stix2.v21.CustomExtension(REG_TOPLEVEL, [("t_rank", P.IntegerProperty())])(
+        type("RegTopLevel", (object,), {"extension_type": "toplevel-property-extension"}))
     stix2.v20.CustomExtension("x-registered-ext", [("rank", P.IntegerProperty(required=True))])(type("RegExt", (object,), {}))
     stix2.v21.CustomExtension("x-registered-ext", [("rank", P.IntegerProperty(required=True))])(type("RegExt", (object,), {}))
 
